@@ -191,7 +191,7 @@ def run_scripted(case, rec):
         verb = dict(print_loss_every=2) if (si + P) % 3 == 0 else dict(verbose=False)
         if "verbose" not in verb:
             rec.count("runs_with_default_verbosity")
-        out = guard.call(jinns.solve, n_iter=n, init_params=Pb["params"], data=Pb["data"], loss=Pb["loss"], optimizer=opt,
+        out = guard.call_supported(jinns.solve, n_iter=n, init_params=Pb["params"], data=Pb["data"], loss=Pb["loss"], optimizer=opt,
                          validation=val, **verb)
         jax.effects_barrier()
         log = sorted(_LOG)
@@ -366,7 +366,7 @@ def run_insolve(case, rec):
                          call_every=P, early_stopping=en, patience=pat)
     opt = nan_update_at(optax.sgd(5e-3), case.get("fault"))
     n = 9
-    out = guard.call(jinns.solve, n_iter=n, init_params=Pb["params"], data=Pb["data"], loss=Pb["loss"], optimizer=opt,
+    out = guard.call_supported(jinns.solve, n_iter=n, init_params=Pb["params"], data=Pb["data"], loss=Pb["loss"], optimizer=opt,
                      param_data=Pb["param_data"], obs_data=Pb["obs_data"], validation=val,
                      **(dict(print_loss_every=3) if case["seed"] % 3 == 0 else dict(verbose=False)))
     # the reference does NOT call the real ValidationLoss: it steps the validation generators itself, evaluates the
